@@ -37,7 +37,7 @@ class Check(AddCheck):
                 return 'f%d' % k[0]
             for j in range(4):
                 doc = gens.random_item_message(rng, sids, items, 600 + j, fresh)
-                yield {'ro': state, 'msg': to_text(doc), 'meta': {'cls': doc[3][0].tag, 'n': len(sids), 'para': 'history'}}
+                yield {'ro': state, 'msg': to_text(doc), 'meta': {'cls': doc[3].tag, 'n': len(sids), 'para': 'history'}}
 
     def obs(self, o):
         if 'classerr' in o:
